@@ -29,7 +29,7 @@ BOUNDS = {
 ASSUMPTIONS = ["A-FP", "A-NP incl. in-place ufunc semantics (out=) of the object-array model", "formatting runs with its output discarded (C-level %g on the NaN payload)",
                "proxies pickle by reference, so the real __reduce__ of Scalar/FixedArray/Quantity is what is exercised"]
 CHUNK = 10
-POOL = ["a_np_degC", "f_np_degC", "a_np_Pag", "s_s.m", "f_derived", "f_empty", "s_two_cats", "a_np_limited", "a_list_limited", "s_m", "s_cm_depth", "s_degC", "s_m2", "s_cm2", "s_per_s", "s_empty", "s_unknown", "a_list_m", "a_tuple_cm", "a_np_m", "a_np_cm2", "a_list_m2",
+POOL = ["a_np_nonfinite", "a_np_nonfinite_b", "fs_improper", "a_np_degC", "f_np_degC", "a_np_Pag", "s_s.m", "f_derived", "f_empty", "s_two_cats", "a_np_limited", "a_list_limited", "s_m", "s_cm_depth", "s_degC", "s_m2", "s_cm2", "s_per_s", "s_empty", "s_unknown", "a_list_m", "a_tuple_cm", "a_np_m", "a_np_cm2", "a_list_m2",
         "f_list_m", "f_np_cm", "fs_in", "fs_frac_in"]
 BINOPS = ["iadd", "isub", "imul", "idiv", "ifdiv", "imul_num", "add", "sub", "mul", "div", "fdiv", "radd_num", "rdiv_num", "mul_num", "eq", "ne", "lt", "le"]
 UNOPS = ["pickle_all", "GetValue_other", "GetValue_own", "CreateCopy", "CreateCopy_unit", "CreateCopy_value", "IsValid", "CheckValidity", "str", "repr", "GetFormatted",
@@ -49,6 +49,12 @@ def items(tier, seed):
         for a, b in (("s_two_cats", "s_m2"), ("s_two_cats", "s_cm2"), ("s_m2", "s_two_cats"), ("s_two_cats", "s_two_cats"), ("a_np_m", "a_np_cm2"), ("a_np_cm2", "a_np_m"), ("a_np_cm2", "a_list_m2"), ("a_list_m2", "a_np_cm2"), ("s_m2", "s_cm2"), ("f_np_cm", "a_np_m")):
             for o in ("add", "mul", "div", "sub"):
                 out.append({"op": o, "a": a, "b": b})
+        for a, b in (("a_np_nonfinite", "a_np_nonfinite_b"), ("a_np_nonfinite_b", "a_np_nonfinite"), ("a_np_nonfinite", "a_np_nonfinite")):
+            for o in ("eq", "ne", "div", "fdiv", "mul", "add", "sub", "lt"):
+                out.append({"op": o, "a": a, "b": b})
+        for a in ("a_np_m", "a_list_m", "f_np_cm", "s_m"):
+            for o in ("div", "fdiv", "mul"):
+                out.append({"op": o, "a": a, "b": "a_np_nonfinite"})
     else:
         out += [{"op": o, "a": a, "b": b} for (a, b) in pairs for o in BINOPS]
         for _ in range(6000):
@@ -81,6 +87,12 @@ def make_pool(V):
     if not db.IsValidCategory("c13 limited"):
         db.AddCategory("c13 limited", "length", min_value=-1e30, max_value=1e30)
     p = {}
+    import numpy as _np
+
+    # concrete float storage with NaN, infinities and both zeros (two separate arrays holding the same numbers), and an improper fraction
+    p["a_np_nonfinite"] = Array(_np.array([float("nan"), 0.0, float("inf"), -0.0, 2.5]), "m")
+    p["a_np_nonfinite_b"] = Array(_np.array([float("nan"), 0.0, float("inf"), -0.0, 2.5]), "m")
+    p["fs_improper"] = FractionScalar(FractionValue(x[22], (7, 4)), "in")
     p["a_np_degC"] = Array(_arr([x[2], x[3]]), "degC")  # pure-offset units on caller-owned numpy storage
     p["f_np_degC"] = FixedArray(2, _arr([x[4], x[5]]), "degC")
     p["a_np_Pag"] = Array(_arr([x[6], x[7]]), "Pa(g)")
@@ -314,7 +326,7 @@ def _run(cfg, V):
                 out["fresh_container"] = all(rv_ is not o.GetAbstractValue() for o in pool.values())
         if op in ("copy", "deepcopy", "CreateCopy", "pickle"):
             picklable = type(a).__name__ in ("Scalar", "FixedArray")
-            if op != "pickle" or picklable:
+            if (op != "pickle" or picklable) and not cfg["a"].startswith("a_np_nonfinite"):  # (a NaN element is unequal to itself: no equality claim for NaN storage)
                 out["copy_equal"] = bool(res == a) and not bool(res != a)
                 out["copy_same_unit"] = res.GetUnit() == a.GetUnit() and res.GetCategory() == a.GetCategory()
     if "then" in cfg and exc is None:
